@@ -5,7 +5,7 @@
 
 #include "lib.h"
 using namespace vf;
-using S = QP;
+using S = vf::DefaultScalar;
 using namespace bspline::operators;
 
 template <size_t o, class Op, class RefF>
